@@ -360,13 +360,10 @@ def property_failures(runs):
                 break
         else:
             # the parts of Model.equations whose order does NOT follow the permuted element stay in place
-            if variant in ('connections', 'maths', 'equations'):
-                for flag, what in (('eq_const', 'constant equations'),) + (
-                        (('eq_conv', 'conversion equations'),) if variant != 'connections' else ()):
-                    if _part(base['dump'], flag, True) != _part(p['dump'], flag, True):
-                        fails.append({'key': 'permutation:%s:equations-%s' % (variant, flag[3:]),
-                                      'detail': 'permuting %s reordered the %s: %s' % (
-                                          variant, what, _first_diff(_part(base['dump'], flag, True), _part(p['dump'], flag, True)))})
+            if variant in ('maths', 'equations') and _part(base['dump'], 'eq_conv', True) != _part(p['dump'], 'eq_conv', True):
+                fails.append({'key': 'permutation:%s:equations-conv' % variant,
+                              'detail': 'permuting %s reordered the conversion equations: %s' % (
+                                  variant, _first_diff(_part(base['dump'], 'eq_conv', True), _part(p['dump'], 'eq_conv', True)))})
             if variant == 'connections':
                 a = [e for e, f in zip(base['dump']['equations'], base['dump']['eq_conv']) if not f]
                 b = [e for e, f in zip(p['dump']['equations'], p['dump']['eq_conv']) if not f]
@@ -439,7 +436,7 @@ def corpus():
         if f.endswith('.cellml'):
             seeds = _seeds(rng, ns)
             out.append({'kind': 'file', 'file': f, 'seeds': seeds, 'perms': list(PERM_KINDS),
-                        'perm_seed': rng.randrange(10 ** 9), 'perm_seeds': [seeds[0], seeds[-1]]})
+                        'perm_seed': rng.randrange(10 ** 9), 'perm_seeds': [seeds[-1]]})
     return out
 
 
@@ -535,9 +532,77 @@ def tag(case, obs):
                                           'yes' if obs.get('n_conversions') else 'no')
 
 
+# ---------------------------------------------------------------------------------------------- model
+ADVS = ['id', 'rev', ['rot', 1], ['rot', 2], ['rot', 3]]
+
+
+def _variants(case, obs):
+    """(label, document, dump of the implementation) for every spelling of a generated document"""
+    import random
+    if case.get('doc') is None or obs['outcome'] == 'crash':
+        return []
+    out = [('base', case['doc'], obs['base'])]
+    for kind, dump in sorted((obs.get('perm_dumps') or {}).items()):
+        prng = random.Random('%s|%s' % (case.get('perm_seed', 0), kind))
+        out.append((kind, permute_json(case['doc'], kind, prng), dump))
+    return out
+
+
 def requests(case, obs):
-    return []
+    from props import c01
+    lines = []
+    for i, (label, doc, dump) in enumerate(_variants(case, obs)):
+        lines.append(sx(['C15', 'load', ADVS[i % len(ADVS)]] + c01.doc_sx(doc)))
+    return lines
+
+
+def _names(x):
+    return [str(a) for a in x]
+
+
+def compare_dump(label, dump, rep):
+    if not isinstance(rep, list) or not rep:
+        return '%s: model reply malformed: %r' % (label, rep)
+    if rep[0] == 'err':
+        if dump['outcome'] == 'ok':
+            return '%s: model refuses the document (%s), implementation loads it' % (label, rep[1:])
+        if dump['outcome'] != 'err:' + rep[1]:
+            return '%s: model raises %s, implementation %s (%s)' % (label, rep[1], dump['outcome'], dump.get('msg'))
+        return None
+    if dump['outcome'] != 'ok':
+        return '%s: model loads the document, implementation raises %s (%s)' % (label, dump['outcome'], dump.get('msg'))
+    parts = {p[0]: p[1:] for p in rep[1:]}
+    if dump.get('query_err'):
+        # Model.graph refuses the equations (a free input that is no ODE's free variable, ...): so must the model
+        if parts['derivs'] and isinstance(parts['derivs'][0], list) and parts['derivs'][0][0] == 'qerr' and \
+                _names(parts['vars']) == dump['variables'] and _names(parts['eqs']) == dump['eq_lhs']:
+            return None
+        return '%s: a query of the implementation raised %s, the model answers %s' % (label, dump['query_err'], parts['derivs'])
+    for mine, theirs in (('vars', 'variables'), ('eqs', 'eq_lhs'), ('states', 'states'), ('derivs', 'derivs'),
+                         ('derived', 'derived')):
+        if _names(parts[mine]) != dump[theirs]:
+            return '%s: %s differ: model %s, implementation %s' % (label, theirs, _names(parts[mine])[:12], dump[theirs][:12])
+    mleaves = [sorted(set(_names(ls))) for _, ls in parts['leaves']]
+    if mleaves != dump['eq_leaves'] or dump['eq_leaves_num'] != dump['eq_leaves']:
+        return None         # SymPy cancelled a reference (x - x, 0*x after substitution): the graph queries are not compared
+    if sorted(_names(parts['nodes'])) != sorted(dump['graph_nodes']):
+        return '%s: graph nodes differ: model %s, implementation %s' % (label, sorted(_names(parts['nodes'])), sorted(dump['graph_nodes']))
+    for mine, theirs in (('eqsfor', 'eqsfor'), ('eqsfordirect', 'eqsfor_direct')):
+        m = [[str(n), _names(l)] for n, l in parts[mine]]
+        if m != dump[theirs]:
+            return '%s: %s differ: %s' % (label, theirs, _first_diff(m, dump[theirs]))
+    for mine, theirs in (('eqsforall', 'eqsfor_all'), ('eqsforallunits', 'eqsfor_all_units')):
+        if _names(parts[mine]) != dump[theirs]:
+            return '%s: %s differ: %s' % (label, theirs, _first_diff(_names(parts[mine]), dump[theirs]))
+    return None
 
 
 def compare(case, obs, replies):
+    vs = _variants(case, obs)
+    if len(vs) != len(replies):
+        return 'model answered %d requests for %d spellings' % (len(replies), len(vs))
+    for (label, doc, dump), rep in zip(vs, replies):
+        mm = compare_dump(label, dump, rep)
+        if mm:
+            return mm
     return None
